@@ -81,10 +81,20 @@ let () =
           let sq = (let s = get "seq" in if s = "-" then [] else
                       List.init (String.length s) (fun i -> nat_of_int (Char.code s.[i] - 48))) in
           let wrap = int_of_string (get "wrap") in
-          let thr_bits = (match get "thr" with "d" -> 0 | s -> int_of_string s) in
+          (* `thr=d` / `B=d`: the setter was not called; the defaults are the field initialisers of
+             Scanner::new as read from scan.rs on this run (GenScan.v) *)
+          let thr_bits = (match get "thr" with "d" -> int_of_z gen_default_threshold_bits | s -> int_of_string s) in
           let thr = f32_of_int_bits thr_bits in
-          let b = (match get "B" with "d" -> 256 | s -> int_of_string s) in
+          let b = (match get "B" with "d" -> int_of_nat gen_default_block_size | s -> int_of_string s) in
           let ks = List.map int_of_string (split ',' (get "ks")) in
+          (* setters called after k calls of next(): (k, thr2 bits, B2), `=` = setter not called *)
+          let sw = (match List.assoc_opt "sw" fields with
+              | None | Some "-" -> None
+              | Some x -> (match String.split_on_char ':' x with
+                  | [k; t; bb] -> Some (int_of_string k,
+                                        (if t = "=" then thr_bits else int_of_string t),
+                                        (if bb = "=" then b else int_of_string bb))
+                  | _ -> failwith ("bad sw " ^ x))) in
           let configured = m >= 1 && wrap >= m - 1 && b >= 1 in
           let nan_cell = List.exists (fun r -> List.exists is_nan_bits (take 4 r)) pssm_bits in
           let pre = configured && not nan_cell in
@@ -123,10 +133,17 @@ let () =
                       else ""
                   | _ -> "")
              | _ -> "") in
+          (* the scanner parameterised by the skeleton read from scan.rs (ShapeConcrete.v) is replayed
+             under one arm per case (chosen by the case id) *)
+          let narms = List.length (List.filter (fun (a, _) -> a <> None) sections) in
+          let pick = if narms = 0 then 0 else (Hashtbl.hash id) mod narms in
+          let arm_no = ref (-1) in
           List.iter (fun (a, stoks) ->
               match a with
               | None -> ()
               | Some ac ->
+                  incr arm_no;
+                  let with_skel = (!arm_no = pick) && Sys.getenv_opt "SCAN_NO_SKEL" = None in
                   let am = arm_of ac in
                   let f = List.map kv stoks in
                   let has k = List.mem_assoc k f in
@@ -194,13 +211,60 @@ let () =
                                   set_v (Printf.sprintf "DIFF %s hits %s" tag (first 0 hits mh))
                                 end;
                                 List.iter (fun (k, h, r) ->
-                                    if r = "N" && h <> take k mh then set_v (Printf.sprintf "DIFF %s take(%d)" tag k)) takes
+                                    if r = "N" && h <> take k mh then set_v (Printf.sprintf "DIFF %s take(%d)" tag k)) takes;
+                                if with_skel then begin
+                                  (match ce_pcollect v am thr bn with
+                                   | Ok ph -> if e <> "P" && model_hits ph <> hits then set_v (Printf.sprintf "DIFF %s source-skeleton-model hits" tag)
+                                   | _ -> set_v (Printf.sprintf "DIFF %s source-skeleton-model fails" tag));
+                                  List.iter (fun (k, h, r) ->
+                                      if r = "N" then
+                                        (match ce_ptake v am thr bn (nat_of_int k) with
+                                         | Ok ph -> if model_hits ph <> h then set_v (Printf.sprintf "DIFF %s source-skeleton-model take(%d)" tag k)
+                                         | _ -> set_v (Printf.sprintf "DIFF %s source-skeleton-model take(%d) fails" tag k))) takes
+                                end
                             | Panic site ->
                                 if e <> "P" then set_v (Printf.sprintf "DIFF %s model-panics-site-%d impl-yields-%d" tag (int_of_nat site) n)
                                 else (match ce_take v am thr bn (nat_of_int n) with
                                     | Ok mh -> if model_hits mh <> hits then set_v (Printf.sprintf "DIFF %s hits-before-panic" tag)
                                     | _ -> set_v (Printf.sprintf "DIFF %s model-panics-earlier" tag))
                             | _ -> set_v (Printf.sprintf "DIFF %s model-out-of-fuel" tag))
+                       | _ -> ());
+                      (* --- setters changed between calls --- *)
+                      (match sw with
+                       | Some (k, t2bits, b2) when has "sw" ->
+                           let before, after, e2 = (match String.split_on_char '/' (fget "sw") with
+                               | [x; y; z] -> (parse_hits x, parse_hits y, z)
+                               | _ -> failwith "bad sw observation") in
+                           let pre2 = pre && b2 >= 1 in
+                           if e2 = "P" then (if pre2 then set_v (Printf.sprintf "PROPFAIL %s sw-panicked-after-%d-hits" tag (List.length before + List.length after)))
+                           else if e2 = "X" then set_v (Printf.sprintf "PROPFAIL %s sw-more-hits-than-cells" tag)
+                           else if impl_scores <> None then begin
+                             (* weak property: distinct positions with exact scores; the hits of the first k calls meet
+                                thr, the later ones thr or thr2; every position meeting both thresholds is yielded *)
+                             let sc = Array.of_list (match impl_scores with Some l -> l | None -> []) in
+                             let all = before @ after in
+                             let ge a bb = bits_ge (z_of_int a) (z_of_int bb) in
+                             let exact (p, x) = p >= 0 && p < Array.length sc && sc.(p) = x in
+                             if List.length (List.sort_uniq compare (List.map fst all)) <> List.length all then
+                               set_v (Printf.sprintf "PROPFAIL %s sw-duplicate-hit" tag)
+                             else if not (List.for_all exact all) then set_v (Printf.sprintf "PROPFAIL %s sw-inexact-hit" tag)
+                             else if not (List.for_all (fun (_, x) -> ge x thr_bits) before) then set_v (Printf.sprintf "PROPFAIL %s sw-hit-below-thr" tag)
+                             else if not (List.for_all (fun (_, x) -> ge x thr_bits || ge x t2bits) after) then set_v (Printf.sprintf "PROPFAIL %s sw-hit-below-both" tag)
+                             else
+                               Array.iteri (fun p x ->
+                                   if ge x thr_bits && ge x t2bits && not (List.mem_assoc p all) then
+                                     set_v (Printf.sprintf "PROPFAIL %s sw-missing pos=%d%s" tag p (prefilter_note p))) sc
+                           end;
+                           (match env with
+                            | Ok v ->
+                                (match ce_switch_collect v am thr bn (nat_of_int k) (f32_of_int_bits t2bits) (nat_of_int b2) with
+                                 | Ok (mb, ma) ->
+                                     if e2 = "P" then set_v (Printf.sprintf "DIFF %s sw impl-panics" tag)
+                                     else if model_hits mb <> before then set_v (Printf.sprintf "DIFF %s sw hits-before" tag)
+                                     else if model_hits ma <> after then set_v (Printf.sprintf "DIFF %s sw hits-after" tag)
+                                 | Panic _ -> if e2 <> "P" then set_v (Printf.sprintf "DIFF %s sw model-panics" tag)
+                                 | _ -> if b2 >= 1 then set_v (Printf.sprintf "DIFF %s sw model-out-of-fuel" tag))
+                            | _ -> ())
                        | _ -> ())
                     end else begin
                       (* c03 *)
@@ -249,8 +313,72 @@ let () =
                                      | Panic site, _ -> set_v (Printf.sprintf "DIFF %s k=%d max impl=%s model-panics-site-%d" tag k r (int_of_nat site))
                                      | _, _ -> set_v (Printf.sprintf "DIFF %s k=%d model-out-of-fuel" tag k))
                                 | Panic _ -> if result <> `Panic then set_v (Printf.sprintf "DIFF %s k=%d model-panics-in-prefix" tag k)
-                                | _ -> set_v (Printf.sprintf "DIFF %s k=%d model-out-of-fuel" tag k))
-                           | _ -> ())) items
+                                | _ -> set_v (Printf.sprintf "DIFF %s k=%d model-out-of-fuel" tag k));
+                               if with_skel && result <> `Panic then
+                                 (match ce_ptake_max v am thr bn (nat_of_int k) with
+                                  | Ok (ph, px) ->
+                                      if List.map fst (model_hits ph) <> consumed then
+                                        set_v (Printf.sprintf "DIFF %s k=%d source-skeleton-model consumed-prefix" tag k);
+                                      (match px, result with
+                                       | Ok None, `None -> ()
+                                       | Ok (Some (p, s)), `Some (ip, ib) ->
+                                           if int_of_nat p <> ip || int_bits_of_f32 s <> ib then
+                                             set_v (Printf.sprintf "DIFF %s k=%d source-skeleton-model max impl=%d:%d model=%d:%d" tag k ip ib (int_of_nat p) (int_bits_of_f32 s))
+                                       | _, _ -> set_v (Printf.sprintf "DIFF %s k=%d source-skeleton-model max impl=%s" tag k r))
+                                  | _ -> set_v (Printf.sprintf "DIFF %s k=%d source-skeleton-model fails" tag k))
+                           | _ -> ())) items;
+                      (* --- setters changed between the k calls of next() and max() --- *)
+                      (match sw with
+                       | Some (k, t2bits, b2) when has "swmax" ->
+                           let consumed, r = (match String.split_on_char '/' (fget "swmax") with
+                               | [c; r] -> (List.map int_of_string (split '+' c), r)
+                               | _ -> failwith "bad swmax observation") in
+                           let pre2 = pre && b2 >= 1 in
+                           let result = (match r with
+                               | "N" -> `None | "P" -> `Panic
+                               | x -> (match String.split_on_char ':' x with
+                                   | [p; bb] -> `Some (int_of_string p, int_of_string bb)
+                                   | _ -> failwith ("bad swmax result " ^ x))) in
+                           (match result with
+                            | `Panic -> if pre2 then set_v (Printf.sprintf "PROPFAIL %s swmax-panicked" tag)
+                            | _ when impl_scores = None -> ()
+                            | _ ->
+                                (* weak property: the answer is an unconsumed position with its exact score meeting thr2
+                                   and dominating every unconsumed position that meets both thresholds; None only if
+                                   there is no such position *)
+                                let sc = Array.of_list (match impl_scores with Some l -> l | None -> []) in
+                                let ge a bb = bits_ge (z_of_int a) (z_of_int bb) in
+                                let strong = ref [] in
+                                Array.iteri (fun p x -> if ge x thr_bits && ge x t2bits && not (List.mem p consumed) then strong := (p, x) :: !strong) sc;
+                                (match result with
+                                 | `None -> (match !strong with
+                                     | (p, _) :: _ -> set_v (Printf.sprintf "PROPFAIL %s swmax=N unconsumed-qualifying pos=%d%s" tag p (prefilter_note p))
+                                     | [] -> ())
+                                 | `Some (p, x) ->
+                                     if not (p >= 0 && p < Array.length sc && sc.(p) = x) then set_v (Printf.sprintf "PROPFAIL %s swmax-inexact" tag)
+                                     else if List.mem p consumed then set_v (Printf.sprintf "PROPFAIL %s swmax-consumed-position" tag)
+                                     else if not (ge x t2bits) then set_v (Printf.sprintf "PROPFAIL %s swmax-below-thr2" tag)
+                                     else List.iter (fun (q, y) -> if not (ge x y) then
+                                                        set_v (Printf.sprintf "PROPFAIL %s swmax=%d:%d better-unconsumed=%d:%d" tag p x q y)) !strong
+                                 | _ -> ()));
+                           (match env with
+                            | Ok v ->
+                                (match ce_switch_max v am thr bn (nat_of_int k) (f32_of_int_bits t2bits) (nat_of_int b2) with
+                                 | Ok (mh, mx) ->
+                                     if List.map fst (model_hits mh) <> consumed && result <> `Panic then
+                                       set_v (Printf.sprintf "DIFF %s swmax consumed-prefix" tag);
+                                     (match mx, result with
+                                      | Ok None, `None -> ()
+                                      | Ok (Some (p, x)), `Some (ip, ib) ->
+                                          if int_of_nat p <> ip || int_bits_of_f32 x <> ib then
+                                            set_v (Printf.sprintf "DIFF %s swmax impl=%d:%d model=%d:%d" tag ip ib (int_of_nat p) (int_bits_of_f32 x))
+                                      | Panic _, `Panic -> ()
+                                      | OutOfFuel, _ -> if b2 >= 1 then set_v (Printf.sprintf "DIFF %s swmax model-out-of-fuel" tag)
+                                      | _, _ -> set_v (Printf.sprintf "DIFF %s swmax impl=%s model-differs" tag r))
+                                 | Panic _ -> if result <> `Panic then set_v (Printf.sprintf "DIFF %s swmax model-panics-in-prefix" tag)
+                                 | _ -> set_v (Printf.sprintf "DIFF %s swmax model-out-of-fuel" tag))
+                            | _ -> ())
+                       | _ -> ())
                     end
                   end) sections
         with
